@@ -3,6 +3,8 @@ import DimodModel.DqmFile
 import DimodModel.CqmLegacy
 import DimodModel.HeaderDicts
 import DimodModel.JsonObject
+import DimodModel.ZipEnd
+import DimodModel.CountDicts
 
 /-! Line-protocol driver of the file-format models (C09 / C10).  One operation per line:
 
@@ -33,6 +35,12 @@ import DimodModel.JsonObject
     encdqmm <starts|lin|low|off>                                   -> npz members + header counts
     decdqmm <members>                                              -> content | err
     decdqm  <mode> <hdrText> <labelled> <varsText> <nlabels> <npzlen> <nvars> <bytes> -> canonical | classes
+
+    eocd <bytes>                                                   -> none | <location>,<size_cd>,<offset_cd>,<entries>  (zipfile._EndRecData)
+    eocdall <bytes>                                                -> `j:location` for every prefix length j at which a record is found | -
+    dqmz <hdrText> <labelled> <varsText> <nlabels> <bytes>         -> ok labels=… | err c   (dqmLoad, np.load's view as in the source under test)
+    hdrtextcqm <7 counts>  /  hdrtextdqm <4 counts> <T|F>          -> hex of the header JSON text the model writes
+    parsecnt <cqm|dqm> <textHex>                                   -> the counts / the flag as the loader reads them | none
 
   `mode` = full (decode the bytes) | all (outcome class of every prefix, then the prefixes on which
   the *unguarded* raw loaders would read out of bounds).  Hex of the empty string is `-`. -/
@@ -420,6 +428,35 @@ def handle (toks : List String) : String :=
       | .ub => "ub"
       | .ok _ => if full.isOk then "=" else "?"
     String.intercalate ";" cls ++ " U:-"
+  | ["eocd", bytes] =>
+    match endRecData (unhex bytes) with
+    | none => "none"
+    | some r => s!"{r.location},{r.sizeCd},{r.offsetCd},{r.entries}"
+  | ["eocdall", bytes] =>
+    let bs := unhex bytes
+    let hits := (List.range (bs.length + 1)).filterMap fun j =>
+      match endRecData (bs.take j) with
+      | some r => some s!"{j}:{r.location}"
+      | none => none
+    if hits.isEmpty then "-" else String.intercalate "," hits
+  | ["dqmz", ht, labelled, vt, nl, bytes] =>
+    errStr (dqmLoad Gen.dqmLoadsWholeFile (oracleParse (unhex ht) (labelled = "1", ())) (oracleParse (unhex vt) (List.range nl.toNat!))
+        (fun r _ => some r.entries) (fun _ => nl.toNat!) (unhex bytes))
+      fun r => s!"members={r.2.1} labels=" ++ (match r.2.2 with | none => "none" | some l => toString l.length)
+  | ["hdrtextcqm", counts] => charsToHex (dumpsDict (cqmCountsDict (parseCounts counts)))
+  | ["hdrtextdqm", counts, flag] =>
+    match (counts.splitOn ",").map String.toNat! with
+    | [a, b, c, d] => charsToHex (dumpsDict (dqmCountsDict { numVariables := a, numCases := b, numCaseInteractions := c, numVariableInteractions := d } (flag = "T")))
+    | _ => "bad-op"
+  | ["parsecnt", kind, text] =>
+    if kind = "cqm" then
+      match parseCqmHeader (unhex text) with
+      | none => "none"
+      | some k => s!"{k.numVariables},{k.numConstraints},{k.numBiases},{k.numQuadVars},{k.numQuadVarsReal},{k.numLinearReal},{k.numWeighted}"
+    else
+      match parseDqmHeader (unhex text) with
+      | none => "none"
+      | some (b, d) => (if b then "T" else "F") ++ s!" keys={d.length}"
   | _ => "bad-op"
 
 def main : IO Unit := do
